@@ -87,6 +87,12 @@ func VerifC08Backchannel() {
 		return ""
 	}
 	id := first("client_id")
+	if id == "" {
+		// validateClientID falls back to the URL query when the form value is empty
+		if vs := query["client_id"]; len(vs) > 0 {
+			id = vs[0]
+		}
+	}
 	secret := first("client_secret")
 	if secret == "" {
 		secret = req.Header.Get("X-Client-Secret")
